@@ -158,9 +158,53 @@ def _alg_for(k: Any, wanted: bytes) -> bytes:
     return wanted if wanted in k.sig_algorithms else k.sig_algorithms[0]
 
 
+def expected_sig_alg(host_key_alg: bytes) -> bytes:
+    """the signature algorithm that belongs to a host key algorithm (certificate algorithms name their key's
+    algorithm, the x509v3- prefix is not part of a signature's algorithm name)"""
+    a = getattr(pkmod, '_certificate_sig_alg_map', {}).get(host_key_alg, host_key_alg)
+    return a[7:] if a.startswith(b'x509v3-') else a
+
+
+def blob_algs(blob: bytes) -> List[bytes]:
+    """the host key algorithms a host key blob can be used with"""
+    try:
+        return list(pkmod.decode_ssh_certificate(blob).host_key_algorithms)
+    except Exception:       # noqa: BLE001 - not a certificate
+        pass
+    try:
+        return list(pkmod.decode_ssh_public_key(blob).sig_algorithms)
+    except Exception:       # noqa: BLE001 - not a key either
+        return []
+
+
+def _alg_facts(kp: Any, signer: str) -> Dict[str, List[str]]:
+    """for every host key algorithm of a credential: can the presented blob be used with it ('fits'), and does
+    the signature the credential produces name that algorithm's signature algorithm ('named')"""
+    algs = list(kp.host_key_algorithms)
+    fit = blob_algs(kp.public_data)
+    if not isinstance(kp, ForgedKeyPair):
+        named = algs
+    elif signer == 'xx':
+        named = []
+    elif signer == 'x':
+        named = algs
+    else:
+        sk = keys()[signer.lstrip('~')]
+        named = [a for a in algs if _alg_for(sk, expected_sig_alg(a)) == expected_sig_alg(a)]
+    return {'fits': [a.decode() for a in algs if a in fit], 'named': [a.decode() for a in named]}
+
+
 def build_cred(spec: Dict[str, Any], rng_bytes: bytes) -> List[Tuple[Any, Dict[str, Any]]]:
     """Returns [(keypair object for server_host_keys, description for the model)], in the order the server
-    registers them.  description: {'algs': [...], 'presented': <driver token>, 'signer': <driver token>}."""
+    registers them.  description: {'algs': [...], 'presented': <driver token>, 'signer': <driver token>,
+    'fits': [...], 'named': [...]}."""
+    out = _build_cred(spec, rng_bytes)
+    for kp, d in out:
+        d.update(_alg_facts(kp, d.pop('_signer')))
+    return out
+
+
+def _build_cred(spec: Dict[str, Any], rng_bytes: bytes) -> List[Tuple[Any, Dict[str, Any]]]:
     K = keys()
     kind, path, signer = spec['kind'], spec.get('path', 'std'), spec.get('signer')
     key = K[spec['key']]
@@ -173,14 +217,14 @@ def build_cred(spec: Dict[str, Any], rng_bytes: bytes) -> List[Tuple[Any, Dict[s
             kp = ForgedKeyPair(key.algorithm, key.sig_algorithms[0], key.sig_algorithms, key.public_data,
                                make_signer(signer or spec['key'], rng_bytes))
         out.append((kp, {'algs': [a.decode() for a in kp.host_key_algorithms], 'presented': pres,
-                         'signer': sig_token(signer or spec['key'])}))
+                         'signer': sig_token(signer or spec['key']), '_signer': signer or spec['key']}))
         return out
     if kind == 'garbage':
         blob = packetmod.String(key.algorithm) + rng_bytes
         kp = ForgedKeyPair(key.algorithm, key.sig_algorithms[0], key.sig_algorithms, blob,
                            make_signer(signer or spec['key'], rng_bytes))
         out.append((kp, {'algs': [a.decode() for a in kp.host_key_algorithms], 'presented': 'G',
-                         'signer': sig_token(signer or spec['key'])}))
+                         'signer': sig_token(signer or spec['key']), '_signer': signer or spec['key']}))
         return out
     cert = cert_for(spec['key'], spec['ca'], spec['type'], spec['after'], spec['before'], spec['principals'])
     princ = ','.join(p.encode().hex() if p else '-' for p in spec['principals']) or '-'
@@ -193,7 +237,7 @@ def build_cred(spec: Dict[str, Any], rng_bytes: bytes) -> List[Tuple[Any, Dict[s
             is_cert = kp.public_data == cert.public_data
             out.append((kp, {'algs': [a.decode() for a in kp.host_key_algorithms],
                              'presented': pres if is_cert else 'K%d' % kid(spec['key']),
-                             'signer': sig_token(spec['key'])}))
+                             'signer': sig_token(spec['key']), '_signer': spec['key']}))
         return out
     blob = cert.public_data
     if kind == 'badsig-cert':
@@ -209,7 +253,7 @@ def build_cred(spec: Dict[str, Any], rng_bytes: bytes) -> List[Tuple[Any, Dict[s
     kp = ForgedKeyPair(cert.algorithm, key.sig_algorithms[0], cert.host_key_algorithms, blob,
                        make_signer(signer or spec['key'], rng_bytes))
     out.append((kp, {'algs': [a.decode() for a in kp.host_key_algorithms], 'presented': pres,
-                     'signer': sig_token(signer or spec['key'])}))
+                     'signer': sig_token(signer or spec['key']), '_signer': signer or spec['key']}))
     return out
 
 
@@ -356,10 +400,12 @@ class TrustTap:
                 tap.server_recv.append(int(pkttype))
             return tap._o_recv(h, pkttype, pktid, packet, note)
 
-        def validate(conn: Any, key_data: bytes) -> Any:
+        def validate(conn: Any, key_data: bytes, *more: Any) -> Any:
+            # (`more`: the key exchange signature, which the method also looks at since it compares the host key and
+            # the signature algorithm with the negotiated host key algorithm)
             tap._depth += 1
             try:
-                r = tap._o_val(conn, key_data)
+                r = tap._o_val(conn, key_data, *more)
             except BaseException as e:
                 tap.log.append('rej')
                 tap.validate_msgs.append('%s: %s' % (type(e).__name__, e))
@@ -554,10 +600,17 @@ def _known_hosts_arg(case: Dict[str, Any], tmpdir: Optional[str]) -> Any:
     if form == 'callable':
         obj = asyncssh.import_known_hosts(text)
         return lambda h, a, p: obj.match(h, a, p)
-    if form == 'tuple':
+    if form in ('tuple', 'tuplepriv', 'tuplerevpriv'):
         # explicit (trusted keys, trusted CAs, revoked keys) for THIS lookup, as the documentation allows
         lh, lp = lookup_args(case)
         r = match_known_hosts(data, lh, case['addr'], lp)
+        if form != 'tuple':
+            # the same keys as key objects that also carry their private part (what an application holds when it
+            # generated or loaded the key pair itself) - in all three lists, or in the revoked list only: the same
+            # keys are listed, so the decision must be the same
+            priv = {k.public_data: k for k in keys().values()}
+            return tuple([priv.get(k.public_data, k) if (form == 'tuplepriv' or i == 2) else k for k in part]
+                         for i, part in enumerate(r[:3]))
         return (list(r[0]), list(r[1]), list(r[2]))
     return data
 
@@ -668,6 +721,7 @@ REASONS = [
     ('Invalid certificate type', 'cert-type'), ('Certificate not yet valid', 'not-yet-valid'),
     ('Certificate expired', 'expired'), ('Certificate principal mismatch', 'principal'),
     ('Unable to decode host key', 'undecodable'),
+    ('Host key algorithm mismatch', 'alg-mismatch'), ('Host certificate algorithm mismatch', 'alg-mismatch'),
 ]
 
 
@@ -682,6 +736,8 @@ def classify_error(exc: Optional[str], msg: str) -> str:
     if exc == 'KeyExchangeFailed':
         if 'hash mismatch' in msg:
             return 'KeyExchangeFailed:sig'
+        if 'signature algorithm mismatch' in msg:
+            return 'KeyExchangeFailed:sigalg'
         if 'host key' in msg.lower() or 'No matching' in msg:
             return 'KeyExchangeFailed:noalg'
         return 'KeyExchangeFailed:?' + msg[:40]
